@@ -67,12 +67,21 @@ Proof.
     cbn [fst snd] in H1, H2. subst bl'. rewrite (Hc st), (H2 (push bl (c' st))). apply IH. exact Hbs.
 Qed.
 
+Lemma Forall2_firstn {A B} (R : A -> B -> Prop) k : forall l l', Forall2 R l l' -> Forall2 R (firstn k l) (firstn k l').
+Proof.
+  induction k as [|k IH]; intros l l' H; [constructor|]. destruct H as [|x y r r' Hxy Hr]; cbn [firstn]; constructor; auto.
+Qed.
+
 Lemma local_loop_ext vis vis' : Forall2 veq2 vis vis' ->
   forall ns lc st, local_loop vis ns lc st = local_loop vis' ns lc st.
 Proof.
-  induction 1 as [|[e f] [e' f'] vis vis' [H1 H2] Hv IH]; intros ns lc st; [reflexivity|].
-  cbn [fst snd] in H1, H2. subst e'. cbn [local_loop]. rewrite (H2 st).
-  destruct ns as [|[n nl] ns']; [reflexivity|]. apply IH.
+  intros H ns lc st. unfold local_loop.
+  assert (Hf : map fst vis = map fst vis').
+  { induction H as [|x y r r' [H1 _] Hr IH]; cbn [map]; [reflexivity|]. rewrite H1, IH. reflexivity. }
+  rewrite Hf. f_equal. apply apply_all_ext.
+  assert (Hs : forall l l', Forall2 veq2 l l' -> Forall2 feq (map snd l) (map snd l')).
+  { induction 1 as [|x y r r' [_ H2] Hr IH]; cbn [map]; constructor; assumption. }
+  apply Hs. apply Forall2_firstn. exact H.
 Qed.
 
 Inductive tgt_eq : atarget -> atarget -> Prop :=
